@@ -500,8 +500,9 @@ func exclusion(s *Sub, in info) (expand, fields string) {
 			// the pattern * is matched against "" here
 			emptyRepl = "C25-replace-on-unset"
 		}
-		if p.Op == "//" && len(p.Arg) > 0 && strings.HasPrefix(p.Arg[0].S, "/") {
-			// ${v////X} (replace every "/"): the pattern "/" is not recognised
+		if (p.Op == "/" || p.Op == "//") && len(p.Arg) > 0 && strings.HasPrefix(p.Arg[0].S, "/") {
+			// ${v////X}, ${v///}: bash reads // + a pattern that starts
+			// with "/"; that pattern is not recognised here
 			slashPat = "C25-replace-slash-pattern"
 		}
 		if p.Op == ":-" || p.Op == "-" || p.Op == ":+" || p.Op == "+" {
